@@ -159,7 +159,8 @@ class AbstractExcelInPython(ABC):
         result = []
         for i in subject:
             if isinstance(i, list):
-                result = result + self._flatten_list(i)
+                # in place: result + ... would copy everything gathered so far once per row of the area
+                result.extend(self._flatten_list(i))
             else:
                 result.append(i)
 
